@@ -106,7 +106,11 @@ static void edge_tick(Task* t);
 // nothing but library frames ever holds secrets on a task stack.
 static void on_seam(const std::function<void()>& body) {
     Task* t = tls_task;
-    if (t && t->preemptible) edge_tick(t);
+    if (t && t->preemptible) {
+        // seam-chasing: the instant between the library preparing arguments and the environment reading them
+        if (E.seam_chase && E.sched_rng.chance(1, 2)) t->countdown = 1;
+        edge_tick(t);
+    }
     if (t && E.trampoline) {
         std::function<void()> f = body;
         t->seam_req = &f;
@@ -389,8 +393,15 @@ u8 guard_hit[GUARD_MAX];
 bool have_edges = false, have_monitor = false;
 
 static void edge_tick(Task* t) {
-    t->edges_call++; t->edges_total++;
+    t->edges_call++; t->edges_total++; t->ticks_in_quantum++;
     if (t->edges_call > STEP_BUDGET) { task_yield(t, TS_BUDGET); for (;;) pause(); }
+    if (--t->countdown <= 0) task_yield(t, TS_PREEMPTED);
+}
+
+// the boundary between two operations of a script is a preemption point of its own
+void boundary_tick(Task* t) {
+    if (E.yield_at_op) t->countdown = 1;
+    t->edges_total++; t->ticks_in_quantum++;
     if (--t->countdown <= 0) task_yield(t, TS_PREEMPTED);
 }
 
@@ -439,7 +450,7 @@ void monitor_access(const void* addr, unsigned size, bool store) {
                     store ? "store" : "load", t->id, (G.w[u] & m) ? "store" : "load", u, E.in_setup ? "setup" : "run");
             }
         }
-        if (store) { G.w[t->id] |= m; E.shared_stores++; } else G.r[t->id] |= m;
+        if (store) { G.w[t->id] |= m; E.shared_stores++; if (E.write_chase && t->preemptible && E.sched_rng.chance(1, 2)) t->countdown = 1; } else G.r[t->id] |= m;
         k += cnt;
     }
 }
